@@ -16,6 +16,8 @@ func init() {
 	vRegister("VerifHarness_C13_Boolean", VerifHarness_C13_Boolean)
 	vRegister("VerifHarness_C13_String", VerifHarness_C13_String)
 	vRegister("VerifHarness_C13_Float", VerifHarness_C13_Float)
+	vRegister("VerifHarness_C13_FloatPair", VerifHarness_C13_FloatPair)
+	vRegister("VerifHarness_C13_FloatTriple", VerifHarness_C13_FloatTriple)
 	vRegister("VerifHarness_C13_UnsignedBatch", VerifHarness_C13_UnsignedBatch)
 	vRegister("VerifHarness_C13_Timestamps", VerifHarness_C13_Timestamps)
 }
@@ -153,21 +155,21 @@ func VerifHarness_C13_IntegerCross() {
 // Timestamps: delta + divisor (10^k) scaling + RLE / simple8b / raw framing, iterator encoder and
 // both decoders. Strictly increasing timestamps (what the cache hands to the encoder).
 func VerifHarness_C13_Timestamps() {
-	max := 3
-	if vThorough() {
-		max = 4
-	}
-	n := vLen("n", 1, max)
+	n := vLen("n", 1, 4)
 	ts := make([]int64, n)
-	// timestamps in a window of 2^44 ns (~4.9 h) above a symbolic multiple-of-nothing base: the
-	// divisor search takes v % 10^k on the deltas, which only cvc5's integer mode decides, and
-	// only for bounded deltas
+	// consecutive timestamps at most 2^32 ns (~4.3 s) apart above an arbitrary base: the divisor
+	// search takes delta % 10^k and the packed form delta / 10^k, which only cvc5's integer mode
+	// decides, and only for bounded deltas
 	base := vRange("base", -(1 << 62), 1<<62)
 	for i := range ts {
 		if i == 0 {
 			ts[i] = base
 		} else {
-			d := vRange("delta", 1, 1<<44)
+			d := int64(vUint32("delta"))
+			if n > 3 {
+				d >>= 16 // four timestamps (thorough): gaps below 2^16 ns
+			}
+			vAssume(d >= 1)
 			ts[i] = ts[i-1] + d
 		}
 	}
@@ -291,14 +293,78 @@ func VerifHarness_C13_String() {
 }
 
 // Floats are compared as bit patterns. NaN is the encoder's end-of-stream marker and is rejected.
+//
+// The encoder's control flow depends on the leading/trailing zero counts of the XOR of consecutive
+// values (and of the last value with the NaN end marker); the engine forks over those counts
+// (concretize_bits), everything else about the values stays symbolic.
 func VerifHarness_C13_Float() {
-	n := vLen("n", 1, 2)
-	vals := make([]float64, n)
+	// one arbitrary value: every (leading, trailing) class of its XOR with the end marker
+	v := vFloat64("f")
+	vAssume(!math.IsNaN(v))
+	vC13FloatRoundTrip([]float64{v})
+	vReach("C13.float.end")
+}
+
+var vC13NaNBits = math.Float64bits(math.NaN())
+
+// vC13XorClass returns an arbitrary 64-bit pattern with exactly l leading zeros and a number of
+// trailing zeros given by tmode: 0 none, 1 the maximum (a single bit set), 2 five (or the
+// maximum, if smaller), 3 any (the engine forks over the count).
+func vC13XorClass(tag string, l, tmode int) uint64 {
+	top := uint64(1) << uint(63-l)
+	free := vUint64(tag+"Bits") & (top - 1)
+	switch tmode {
+	case 0:
+		return top | free | 1
+	case 1:
+		return top
+	case 2:
+		if 63-l <= 5 {
+			return top
+		}
+		return top | (free &^ 63) | 32
+	}
+	return top | free
+}
+
+// Two values: the XOR of the pair takes every leading-zero count 0..63 with no, five or the
+// maximal number of trailing zeros (thorough: any number); the second value's XOR with the end
+// marker has 0 or 12 leading zeros (thorough: 7 classes) and no trailing zeros.
+func VerifHarness_C13_FloatPair() {
+	endClasses := []int{0, 12}
+	tmodes := 3
+	if vThorough() {
+		endClasses = []int{0, 1, 12, 31, 32, 33, 63}
+		tmodes = 4
+	}
+	le := endClasses[vChoice("endMarkerLeadingZeros", len(endClasses))]
+	b1 := vC13NaNBits ^ vC13XorClass("end", le, 0)
+	l := vLen("xorLeadingZeros", 0, 63)
+	b0 := b1 ^ vC13XorClass("xor", l, vChoice("xorTrailing", tmodes))
+	v0, v1 := math.Float64frombits(b0), math.Float64frombits(b1)
+	vAssume(!math.IsNaN(v0) && !math.IsNaN(v1))
+	vC13FloatRoundTrip([]float64{v0, v1})
+	vReach("C13.float-pair.end")
+}
+
+// Three values (thorough): the second delta is encoded either inside the first delta's
+// leading/trailing window or with a new window.
+func VerifHarness_C13_FloatTriple() {
+	ls := []int{0, 11, 12, 31, 32, 33, 52, 63}
+	b2 := vC13NaNBits ^ vC13XorClass("end", 0, 0)
+	b1 := b2 ^ vC13XorClass("xor2", ls[vChoice("xor2LeadingZeros", len(ls))], vChoice("xor2Trailing", 3))
+	b0 := b1 ^ vC13XorClass("xor1", ls[vChoice("xor1LeadingZeros", len(ls))], vChoice("xor1Trailing", 3))
+	v0, v1, v2 := math.Float64frombits(b0), math.Float64frombits(b1), math.Float64frombits(b2)
+	vAssume(!math.IsNaN(v0) && !math.IsNaN(v1) && !math.IsNaN(v2))
+	vC13FloatRoundTrip([]float64{v0, v1, v2})
+	vReach("C13.float-triple.end")
+}
+
+func vC13FloatRoundTrip(vals []float64) {
+	n := len(vals)
 	bits := make([]uint64, n)
 	for i := range vals {
-		vals[i] = vFloat64("f")
 		bits[i] = math.Float64bits(vals[i])
-		vAssume(!math.IsNaN(vals[i]))
 	}
 	enc := NewFloatEncoder()
 	for _, v := range vals {
@@ -324,5 +390,10 @@ func VerifHarness_C13_Float() {
 	}
 	vAssert(dec.Error() == nil, "C13.float-iter-ok")
 	vAssert(i == n, "C13.float-iter-count")
-	vReach("C13.float.end")
+	got, err := FloatArrayDecodeAll(b, nil)
+	vAssert(err == nil, "C13.float-batch-ok")
+	vAssert(len(got) == n, "C13.float-batch-count")
+	for j := 0; j < n && j < len(got); j++ {
+		vAssert(math.Float64bits(got[j]) == bits[j], "C13.float-batch-roundtrip")
+	}
 }
